@@ -42,6 +42,10 @@ inductive FnId where
   | pqPopIf | dqPopMinIf | dqPopMaxIf | pqPeek | dqPeekMin | dqPeekMax | pqPeekMut | dqPeekMinMut | dqPeekMaxMut
   | storeFromVec | storeFromIter | storeExtend | storeVisitSeq
   | pqExtend | dqExtend | pqAppend | dqAppend | pqRetainMut | dqRetainMut | pqRetain | dqRetain
+  | storeRetain | pqFromVec | dqFromVec | pqFromIter | dqFromIter | pqFromQueue | dqFromQueue
+  | pqDeserialize | dqDeserialize
+  | pqIterMutNext | pqIterMutNextBack | pqIterMutLen | pqIterMutSizeHint | pqIterMutDrop
+  | dqIterMutNext | dqIterMutNextBack | dqIterMutLen | dqIterMutSizeHint | dqIterMutDrop
   deriving DecidableEq, Repr
 
 /-- `usize`-valued expressions: pure except for faults -/
@@ -71,6 +75,10 @@ inductive NExpr where
   | otherSize (ov : Var)
   /-- `v.len()` for the sequence in value register `v` -/
   | entriesLen (v : Var)
+  /-- `a.min(b)` -/
+  | min (a b : NExpr)
+  /-- the lower bound of `iter.size_hint()` for the iterator in value register `v` -/
+  | iterLo (v : Var)
   deriving Repr
 
 /-- priority-valued expressions (`&P`) -/
@@ -103,6 +111,10 @@ inductive BExpr where
   | prioMapOrGt (iv : Var) (p : PExpr)
   /-- `self.get_priority(&item).map_or(true, |p| priority < *p)` -/
   | prioMapOrLt (iv : Var) (p : PExpr)
+  /-- `self.map.insert(item, p).is_none()`: the insertion happens, the answer says whether the item was new -/
+  | mapInsertIsNone (iv : Var) (p : PExpr)
+  /-- `better_to_rebuild(a, b)` (generated `PQ.Arith.betterToRebuild`) -/
+  | betterToRebuild (a b : NExpr)
   deriving Repr
 
 inductive Stmt where
@@ -237,6 +249,24 @@ inductive Stmt where
   | mapChangedBy (key fv vpos : Var) (body : Stmt)
   /-- `None : Option<(&mut I, &P)>` as the function's result -/
   | retNoneSlot
+  /-- `Store::with_hasher(..)` / `with_default_hasher()`: a fresh empty store -/
+  | storeNew
+  /-- `Store::with_capacity_and_hasher(e, ..)`: the capacity request (`reserveC`), then a fresh empty store -/
+  | storeNewCap (e : NExpr)
+  /-- `self.reserve(e)`: only the deterministic capacity-overflow panic is modelled (`reserveC`) -/
+  | reserve (e : NExpr)
+  /-- `let (_, i, p) = self.map.get_full_mut2(&item).unwrap();`: the slot of the item goes to register `vidx` -/
+  | fullMut2 (site : Nat) (iv vidx : Var)
+  /-- `*old_item = item` for the item slot of entry `idx` -/
+  | slotSetItem (idx : NExpr) (iv : Var)
+  /-- `*old_priority = p` for the priority slot of entry `idx` -/
+  | slotSetPrio (idx : NExpr) (p : PExpr)
+  /-- `if let Some(size) = seq.size_hint() { t } else { f }` -/
+  | ifSeqHint (sv vsize : Var) (t f : Stmt)
+  /-- `|i, p| predicate(&*i, &*p)`: a read-only predicate used where a mutating one is expected -/
+  | adaptPred (dst src : Var)
+  /-- `self.store.append(&mut other.store)` through the translated `Store::append`: `other` gets what is left of it -/
+  | appendOther (ov : Var)
   deriving Repr
 
 /-- a translated function: its `usize` parameters, its priority parameters, its body -/
@@ -276,6 +306,12 @@ inductive Val (P : Type) where
   | store (o : Store P)
   /-- `Option<(&mut I, &P)>`: the slot of the map that is handed out mutably, with its entry -/
   | optSlot (o : Option (Nat × Item × P))
+  /-- an iterator over (item, priority) pairs: the lower bound of its `size_hint` and what it yields -/
+  | iter (lo : Nat) (xs : Array (Item × P))
+  /-- a serde `SeqAccess`: the length the input announces (if any) and the pairs it contains -/
+  | seq (hint : Option Nat) (xs : Array (Item × P))
+  /-- a user predicate `FnMut(&I, &P) -> bool` -/
+  | predRO (g : Item → P → Bool)
   /-- a sequence of (item, priority) pairs: a `Vec`, what an iterator yields, what `drain` hands out -/
   | entries (a : Array (Item × P))
 
@@ -316,6 +352,10 @@ def bindV : List Var → List (Val P) → (Var → Option (Val P))
 /-! ## expressions -/
 
 def evalN (st : St P) : NExpr → R Nat
+  | .min a b => do let x ← evalN st a; let y ← evalN st b; pure (Nat.min x y)
+  | .iterLo v => match st.v v with
+    | some (.iter lo _) => pure lo
+    | _ => .error stuck
   | .otherSize ov => match st.v ov with
     | some (.store o) => pure o.size
     | _ => .error stuck
@@ -426,6 +466,17 @@ def evalB (callf : CallF P) (st : St P) : BExpr → R (Store P × Bool)
       | none => pure (s, true)
       | some q => pure (s.tick, decide (q < x))
     | _ => .error stuck
+  | .mapInsertIsNone iv p => do
+    let (s, x) ← evalP callf st p
+    match st.v iv with
+    | some (.item it) =>
+      let r := s.map.insertFull it x
+      pure ({ s with map := r.1 }, r.2.2.isNone)
+    | _ => .error stuck
+  | .betterToRebuild a b => do
+    let x ← evalN st a
+    let y ← evalN st b
+    pure (st.s, betterToRebuild x y)
   | .prioMapOrLt iv p => do
     let (s, x) ← evalP callf st p
     match st.v iv with
@@ -709,6 +760,10 @@ def execStep (rec : Stmt → St P → R (St P × Flow P)) (callf : CallF P) : St
     match st.v src with
     | some (.entries a) =>
       forList (fun e st => execStep rec callf body ((st.setV iv (.item e.1)).setP pv e.2)) a.toList st
+    | some (.iter _ a) =>
+      forList (fun e st => execStep rec callf body ((st.setV iv (.item e.1)).setP pv e.2)) a.toList st
+    | some (.seq _ a) =>
+      forList (fun e st => execStep rec callf body ((st.setV iv (.item e.1)).setP pv e.2)) a.toList st
     | _ => .error stuck
   | .mapInsert iv p, st => do
     let (s, x) ← evalP callf st p
@@ -769,6 +824,47 @@ def execStep (rec : Stmt → St P → R (St P × Flow P)) (callf : CallF P) : St
       | _ => .error stuck
     | _ => .error stuck
   | .retNoneSlot, st => pure (st, .ret (.optSlot none))
+  | .storeNew, st => pure (st.setS Store.empty, .normal)
+  | .storeNewCap e, st => do
+    let x ← evalN st e
+    reserveC x
+    pure (st.setS Store.empty, .normal)
+  | .reserve e, st => do
+    let x ← evalN st e
+    reserveC x
+    pure (st, .normal)
+  | .fullMut2 site iv vidx, st =>
+    match st.v iv with
+    | some (.item it) => do
+      let i ← unwrapO (st.s.map.find? it.key) site
+      pure (st.setN vidx i, .normal)
+    | _ => .error stuck
+  | .slotSetItem idx iv, st => do
+    let i ← evalN st idx
+    match st.v iv with
+    | some (.item it) => pure (st.setS { st.s with map := st.s.map.setItem i it }, .normal)
+    | _ => .error stuck
+  | .slotSetPrio idx p, st => do
+    let i ← evalN st idx
+    let (s, x) ← evalP callf st p
+    pure (st.setS { s with map := s.map.setPrio i x }, .normal)
+  | .ifSeqHint sv vsize t f, st =>
+    match st.v sv with
+    | some (.seq (some h) _) => execStep rec callf t (st.setN vsize h)
+    | some (.seq none _) => execStep rec callf f st
+    | _ => .error stuck
+  | .adaptPred dst src, st =>
+    match st.v src with
+    | some (.predRO g) => pure (st.setV dst (.pred fun i p => (g i p, i, p)), .normal)
+    | _ => .error stuck
+  | .appendOther ov, st =>
+    match st.v ov with
+    | some (.store o) => do
+      let (s, r) ← callf .storeAppend st.s [] [] [.store o]
+      match r with
+      | .store o' => pure ((st.setS s).setV ov (.store o'), .normal)
+      | _ => .error stuck
+    | _ => .error stuck
   | .mapChangedBy key fv vpos body, st =>
     match st.v fv with
     | some g => do
